@@ -78,6 +78,10 @@ fn main() {
         println!("INCONCLUSIVE closed-form self-test failed: {}", e);
         std::process::exit(2);
     }
+    if let Err(e) = vharness::checks::composite::self_test_gate() {
+        println!("INCONCLUSIVE gate-rule self-test failed: {}", e);
+        std::process::exit(2);
+    }
 
     let code = match id.as_str() {
         "C01" => drive(&checks::statics::Statics { which: checks::statics::Which::C01 }, &opts),
